@@ -122,6 +122,13 @@ fn check_code(code: &u16, case: &mut Case) -> Result<(), Fail> {
     if let Ok(q) = qc {
         ensure!(u16::from(q) == c, "c18:qclass-roundtrip", "QCLASS {} converts back to {}", c, u16::from(q));
     }
+    // the infallible conversions record type -> question type and class -> question class keep the code
+    let via: QTYPE = lib("QTYPE::from(TYPE)", || QTYPE::from(t))?;
+    ensure!(via == QTYPE::TYPE(t) && u16::from(via) == c, "c18:type-into-qtype", "QTYPE::from(TYPE::from({})) = {:?} (code {})", c, via, u16::from(via));
+    if let Ok(class) = cl {
+        let via: QCLASS = lib("QCLASS::from(CLASS)", || QCLASS::from(class))?;
+        ensure!(via == QCLASS::CLASS(class) && u16::from(via) == c, "c18:class-into-qclass", "QCLASS::from({:?}) = {:?} (code {})", class, via, u16::from(via));
+    }
     Ok(())
 }
 
